@@ -231,7 +231,14 @@ class ExecGen:
         for rnd in range(rng.randint(2, 3)):
             if rnd and rng.random() < 0.8:
                 self.phases.append(dict(t="sleep", us=rng.choice([3000, 12000, 30000, 60000, self.maxage_us // 3])))
-            self.par(1 if single or (rnd and rng.random() < 0.25) else rng.randint(2, 4), rng.randint(3, 8), rng.randint(0, 2), 3)
+            if shape == "storm" and rnd == 1:
+                # many readers back to back (api and web) while producers overwrite: answers of concurrent Gets must not
+                # disturb each other
+                prods = [[dict(self.new_add(), gap=rng.choice([0, 0, 30])) for _ in range(rng.randint(6, 10))] for _ in range(3)]
+                readers = [[dict(self.getop(), gap=0, e=rng.choice([BIG_US, BIG_US, self.maxage_us, 20000])) for _ in range(12)] for _ in range(4)]
+                self.phases.append(dict(t="par", prods=prods, readers=readers))
+            else:
+                self.par(1 if single or (rnd and rng.random() < 0.25) else rng.randint(2, 4), rng.randint(3, 8), rng.randint(0, 2), 3)
             self.barrier()
             self.gets(rng.randint(2, 5))
         if shape == "full":
@@ -261,7 +268,7 @@ def build_scenarios(ctx, rng):
         for j in range(nex if us < 900000 else max(3, nex // 3)):
             xid += 1
             g = ExecGen(rng, run, inst, xid, mode, us, web)
-            g.build("full" if j == 1 and inst in (2, 4) else ("single" if j % 3 == 0 else "multi"))
+            g.build("full" if j == 1 and inst in (2, 4) else ("storm" if j == 2 else ("single" if j % 3 == 0 else "multi")))
             gens[xid] = g
             execs.append(dict(id=xid, phases=g.phases))
         insts.append(dict(inst=inst, mode=mode, maxage=maxage, web=web, big_us=BIG_US, refs=REFS if mode == "table" else [], execs=execs))
